@@ -13,7 +13,7 @@ def _backup(what, s0, s1, s2, s3, s4, wal, ta, tp, tc, td, cl, again):
     """live container: obj0, obj2 loose, obj1 packed.  Another client adds obj3 loose (at ta), packs everything (tp,
     clean_loose_per_pack=cl), cleans (tc), writes obj4 directly to a pack (td).  ``wal``: a further client keeps a
     connection to the index open for the whole time.  ``again``: a second, incremental backup follows (no events)."""
-    w = make_world(10**9)
+    w = make_world(10**9, config_file=True)
     try:
         w.set_pack(0, [('junk', 0, 1), ('obj', 1, s1)])
         w.put_loose(0, s0)
